@@ -35,8 +35,10 @@ TypeCat == [a |-> <<>>, b |-> <<>>, h |-> <<>>, q |-> <<>>,     \* (q: an `or` o
 TypeIds == DOMAIN TypeCat
 \* root mentions no type / @a / every registered name / has two defective choices of its own / is an heir of @i (the
 \* properties of @i, with their defects, are copied into the root, which is checked before any type)
-Roots == {"plain", "refs-a", "refs-all", "two-choices", "heir-of-i"}
-RootDefects == [rt \in Roots |-> IF rt = "two-choices" THEN <<"missing-in-choice", "missing-in-choice">> ELSE <<>>]
+\* / requires itself and is registered as a type of itself under two names (which of them a walk meets first must not matter)
+Roots == {"plain", "refs-a", "refs-all", "two-choices", "heir-of-i", "self-two-names"}
+RootDefects == [rt \in Roots |-> IF rt = "two-choices" THEN <<"missing-in-choice", "missing-in-choice">>
+                                ELSE IF rt = "self-two-names" THEN <<"requires-itself">> ELSE <<>>]
 Reuses == {"fresh", "second-root", "prechecked"}
 
 VARIABLES root, order, done, verdict, reuse, verdict2
